@@ -117,7 +117,7 @@ def run_diff(impl, ref, interp, lengths, alphabet, deadline, stubs=None, allowed
             stats['outcomes'][key] = stats['outcomes'].get(key, 0) + 1
             # interpreter validation (Serval style): the path's outcome, evaluated in a model of
             # the path condition, must equal the native run of the real function on that input
-            if stats.setdefault('validated', 0) < 300:
+            if stats.setdefault('validated', 0) < 300 and not getattr(eng, 'approx', False):
                 st0, m0 = eng.model_if_sat(z3.BoolVal(True))
                 if st0 == z3.sat:
                     w0 = decode(m0, cs)
@@ -173,3 +173,78 @@ def result(exhausted, cexs, stats, extra=None):
     return {'status': 'CONFIRMED' if (exhausted and not cexs and not stats['unknown']) else 'UNKNOWN',
             'paths': stats['paths'], 'confirmed_paths': stats['completed'], 'queries': stats['queries'],
             'cexs': cexs[:3], 'extra': ex}
+
+
+def run_total(call, native, interp, lengths, alphabet, deadline, allowed_exc, stubs=None, skip=None, name='s',
+              stats=None, post=None, nonascii=()):
+    """Totality check: for ALL strings of the given lengths over the alphabet, `call(eng, s)`
+    returns a value (optionally satisfying post(eng, s, value) -> z3 condition for 'bad') or
+    raises one of allowed_exc.  `native(w)` runs the real code on a concrete string for the
+    interpreter validation."""
+    stats = stats if stats is not None else {'paths': 0, 'completed': 0, 'queries': 0, 'outcomes': {}, 'funcs': set(), 'unknown': 0}
+    cexs = []
+    exhausted = True
+    for n in lengths:
+        eng = Engine(set(interp), stubs=dict(stubs or {}))
+        eng.nonascii_domain = tuple(nonascii)
+        cs = [z3.Int('c%d' % i) for i in range(n)]
+        pre = [alphabet(c) for c in cs]
+        s = SymStr(cs) if n else ''
+
+        def thunk():
+            if pre:
+                eng.solver.add(*pre)
+            if skip is not None and eng.truth(skip(eng, s)):
+                return 'skipped'
+            try:
+                return ('return', call(eng, s))
+            except PyRaise as e:
+                return ('raise', e.exc)
+
+        def on_path(out, eng):
+            kind, val = out
+            if kind == 'raise':
+                st, m = eng.model_if_sat(z3.BoolVal(True))
+                cexs.append({'args': {name: decode(m, cs)}, 'message': 'harness raised %r' % (val,)})
+                return
+            if val == 'skipped':
+                stats['outcomes']['skipped(known finding)'] = stats['outcomes'].get('skipped(known finding)', 0) + 1
+                return
+            a = val
+            key = '%s:%s' % (a[0], type(a[1]).__name__ if a[0] == 'raise' else 'value')
+            stats['outcomes'][key] = stats['outcomes'].get(key, 0) + 1
+            if stats.setdefault('validated', 0) < 300 and not getattr(eng, 'approx', False):
+                st0, m0 = eng.model_if_sat(z3.BoolVal(True))
+                if st0 == z3.sat:
+                    stats['validated'] += 1
+                    d = native_disagrees(native, decode(m0, cs), a, m0)
+                    if d:
+                        stats.setdefault('model_disagreements', []).append(d)
+            if a[0] == 'raise':
+                if isinstance(a[1], allowed_exc):
+                    return
+                st, m = eng.model_if_sat(z3.BoolVal(True))
+                if st == z3.sat:
+                    cexs.append({'args': {name: decode(m, cs)}, 'message': '%s escaped: %s' % (type(a[1]).__name__, str(a[1])[:100])})
+                return
+            if post is not None:
+                bad = post(eng, s, a[1])
+                if bad is False:
+                    return
+                st, m = eng.model_if_sat(z3.BoolVal(True) if bad is True else bad)
+                if st == z3.sat:
+                    cexs.append({'args': {name: decode(m, cs)}, 'message': 'result violates the postcondition'})
+                elif st != z3.unsat:
+                    stats['unknown'] += 1
+
+        done = eng.explore(thunk, on_path, deadline)
+        stats['paths'] += eng.paths
+        stats['completed'] += getattr(eng, 'completed', 0)
+        stats['queries'] += eng.queries
+        stats['funcs'] |= eng.funcs_seen
+        if not done:
+            exhausted = False
+            break
+        if cexs:
+            break
+    return exhausted, cexs, stats
